@@ -43,6 +43,18 @@ CHECKS = {
          "Runs stack, mlink.Queue, mlink.List (4-10 live cursors obtained through At/Last/End/Find, every edit method at every position, every cursor re-checked and every stale cursor probed with every method after each edit: must panic 'invalid cursor', not hang, not alter the list) and ring.Ring (every Join over every pair of elements of every configuration of <= 7 elements in <= 2 rings, random Join/Pop histories, bounded structural walks, At/Peek/Len/Each) against reference sequences. Held = no disagreement, no hang, on the listed executions.",
          "Trusts the slice/cycle reference models; a hang is decided by the worker's own heartbeat ticks (30 s of its running time without a completed step), not by wall-clock.",
          "DESIGN.md §5 C10"),
+ "C11": ("interpreter oracle over the returned script (by offset and by address) + independent O(mn) LCS table + canonical-form checks; exhaustive enumeration of all pairs over small alphabets/lengths, random long pairs",
+         "Every pair of sequences over alphabet 3 x length <= 7, alphabet 2 x length <= 9 and alphabet 4 x length <= 5 (13.7 M pairs in quick, ~10^8 more in thorough) plus random pairs up to length 400 is run through slice.EditScript; the script is executed against lhs/rhs by offset and by storage identity, its kept-element count compared with an independent LCS table, its canonical form and the immutability of the inputs checked. Held = no violation on the enumerated space (complete for the stated alphabets and lengths) and the sampled long pairs.",
+         "Trusts the quadratic LCS reference and the interpreter.",
+         "DESIGN.md §5 C11"),
+ "C12": ("position-tagged elements (subsequence = strictly increasing positions) + quadratic reference optima; exhaustive small inputs under natural, reversed and non-unit ('wide') comparators; random large inputs",
+         "All sequences over alphabet 4 x length <= 8, 3 x length <= 11, 2 x length <= 13 under three comparators for LIS/LNDS, all pairs over alphabet 2 x length <= 7 and 3 x length <= 5 for LCS/LCSFunc, plus random inputs to 1500 (5000 thorough): outputs must be subsequences by position, ordered strictly / non-strictly, of optimal length, with inputs untouched. Held = no violation on that space.",
+         "Trusts the quadratic DP references.",
+         "DESIGN.md §5 C12"),
+ "C17": ("definitional oracles with guard-filled buffers and address checks; exhaustive enumeration of arguments for small sizes, including out-of-range and empty arguments; expected-panic monitoring",
+         "Partition (every keep mask for n <= 16 on exact and windowed slices), Rotate (every n <= 64, every k in [-n-2,n+2] and far out of range), Chunks/Batches (every len <= 40 x n in [-1,len+3]), Head/Tail/Stripe/At/PtrAt are compared with their definitions; 'capacity-clipped' is checked by appending to each result and looking for clobbered cells; documented panics must occur and undocumented ones must not. Held = no violation on the enumerated arguments.",
+         "Reads 'capacity-clipped' behaviourally (append cannot overwrite a cell outside the subslice).",
+         "DESIGN.md §5 C17"),
  "C07": ("reference-model monitor (slice) after every operation; exhaustive short histories + scripted wrap/regrow scenarios + PRNG histories; internal-state reach counters via hook",
          "Runs the real queue.Queue against a slice reference and compares the full observable state (Len, IsEmpty, Front, Slice, Each, every Peek offset) after every single operation, over every history of bounded length for small preallocated sizes, scripted rotate-then-grow scenarios for every capacity 1..24 and head position, and tens of thousands of PRNG histories. Held = no divergence on the executions listed in the evidence file; nothing is proved beyond them.",
          "Trusts the slice reference model and the Go runtime. The VerifState hook feeds reach counters only.",
